@@ -225,4 +225,24 @@ def install():
         return _generate_log_return
 
     _wrap(Fundamentals, "_generate_log_return", mk_genlog)
+
+    # built-in agents inherit the no-op callbacks of Agent: tap those (scripted agents override them)
+    from pams.agents.base import Agent
+
+    def mk_cb(what):
+        def make(orig):
+            def cb(self, log):
+                hits["agent_cb_base"] += 1
+                if _sinks:
+                    emit("cb", agent=self, what=what, log=log, hold=(self.cash_amount, dict(self.asset_volumes)))
+                return orig(self, log)
+
+            return cb
+
+        return make
+
+    hits["agent_cb_base"] += 0
+    _wrap(Agent, "submitted_order", mk_cb("submitted"))
+    _wrap(Agent, "canceled_order", mk_cb("canceled"))
+    _wrap(Agent, "executed_order", mk_cb("executed"))
     _installed = True
